@@ -182,6 +182,10 @@ def measurement_exprs(rng, quick):
     for kind, base in (("distance", "m"), ("mass", "kg"), ("storage", "B")):
         for u in gen.TARGET_UNITS[kind]:
             out += ["1 %s + 1 %s" % (u, base), "1 %s - 1 %s" % (base, u), "(3 %s * 2) as %s" % (u, base), "8 %s - 1 %s" % (u, u), "1 %s / 1 %s" % (u, base) if False else "2 %s + 2 %s" % (u, u)]
+    for kind, base in (("distance", "m"), ("mass", "kg"), ("storage", "B")):
+        for u in gen.TARGET_UNITS[kind]:
+            for mg in ("0", "1", "10", "0.0", "1e3", "0e0", "00", "0.5"):
+                out += ["%s%s + 1%s" % (mg, u, base), "%s%s" % (mg, u), "1%s - %s%s" % (base, mg, u), "%s%s * 5" % (mg, u), "-%s%s" % (mg, u)]
     for a_, b_ in [("3kg", "500g"), ("1m", "2m"), ("5km", "5m"), ("2.5KiB", "512B"), ("1e3mg", "1g"), ("7lb", "3oz")]:
         out += ["%s-%s" % (a_, b_), "%s -%s" % (a_, b_), "%s- %s" % (a_, b_), "%s+%s" % (a_, b_), "(%s-%s) as %s" % (a_, b_, "mm" if a_.endswith("m") and not a_.endswith("km") else "g" if "g" in a_ else "B" if "B" in a_ else "m" if "km" in a_ else "oz"),
                 "f(%s-%s)" % (a_, b_), "-%s" % a_, "-%s+%s" % (a_, b_), "2*%s-%s" % (a_, b_), "%s*2-%s" % (a_, b_), "%s/2-%s" % (a_, b_)]
@@ -372,7 +376,7 @@ HIST_ALPHABET = [
     "clear", "sin = 1", "sin(a) = a", "delete sin", "delete sin(a)", "pi = 3", "s = sin", "s(a) = a",
 ]
 HIST_PROBES = "x\nf\nh\ns\nf(0)\nf(1)\nf(1, 2)\nh(1)\nh(1, 2)\ns(0)\nsin(0)\npi\n"
-HIST_PROBES_MORE = HIST_PROBES + "gg\nk\ny\nhh\nhh(1)\né\nünï_1\n"
+HIST_PROBES_MORE = HIST_PROBES + "gg\nk\ny\nhh\nhh(1)\né\nünï_1\nans\n_\nlast\nπ\nϕ\ntau\nClear\nDot\n"
 HIST_EXTRA = ["delete s(a)", "delete s", "h = sin", "f(x) = x * 2", "f(1) = 1", "f(1, y) = y", "delete f(1, y)", "delete f(q)", "delete f(a, k)",
               "y = f", "y = x", "x = x + 1", "f(a) = f", "gg(0) = 1; gg(n) = n * gg(n - 1)", "gg(5)", "gg(0) = 1; gg(n) = n * gg(n - 1); delete gg(n)",
               "e = 2", "delete pi", "i(x) = x", "delete i(x)", "c = sin", "cos(0) = 1", "delete cos(0)", "f() = 9", "f()", "delete f()",
@@ -384,6 +388,9 @@ HIST_EXTRA = ["delete s(a)", "delete s", "h = sin", "f(x) = x * 2", "f(1) = 1", 
               "f(a) = a; h = f; hh = h; delete hh(a); f; h", "f(a) = a; f(a, k) = k; h = f; delete h(a); delete h(a, k); h; f", "x = x", "f = f", "h = h; h(a) = 9; h",
               "gg(0) = 0; gg(n) = n * gg(n - 1); gg(0) = 1; gg(5)", "gg(0) = 1; gg(n) = n * gg(n - 1); gg(n) = n * gg(n - 1); gg(3)",
               "f(a) = 1; f(a, k) = 2; f(a, k, q) = 3; f(1, 2); delete f(u, v); delete f(u, v)", "delete f()", "delete x()", "delete s()", "delete sin()", "f(); x(); s()",
+              "π = 3", "delete ϕ", "π(a) = a", "delete ϕ(1)", "tau = 1", "delete e", "c = 1", "G(a) = a", "i = 2", "phi = 1", "delete i", "e(a) = a", "π", "ϕ", "tau; c; G; i; e; phi",
+              "Clear", "CLEAR", "DELETE x", "Delete f(a)", "x = 1; Clear; x", "Dot = 1", "As = 2", "Cross(a) = a", "cLeAr", "deLete = 3", "1 Dot 2", "5 As km",
+              "1 + 1", "2 * 3; x", "ans", "ans = 5", "ans(a) = a", "_", "last", "7; ans; _; last; it; result",
               "é = 2", "é(a) = a", "é", "ünï_1 = é", "delete é", "f(é) = é * 2", "f(2)", "x = 3 m; x = x as cm; x", "x = [1,2;3,4]; x = x * x; x", "x = f; x(a) = 0; f"]
 
 
